@@ -173,7 +173,8 @@ def apalache_inductive(ctx, module, files, cinit, indinv, init="Init", indinit="
     for name, ini, length in steps:
         t0 = time.time()
         p = subprocess.run(["timeout", str(timeout), "apalache-mc", "check", f"--cinit={cinit}", f"--init={ini}", f"--inv={indinv}", f"--length={length}",
-                            "--out-dir=" + os.path.join(d, "out"), module + ".tla"], cwd=d, stdout=subprocess.PIPE, stderr=subprocess.STDOUT, text=True)
+                            "--out-dir=" + os.path.join(d, "out"), module + ".tla"], cwd=d, stdout=subprocess.PIPE, stderr=subprocess.STDOUT, text=True,
+                           env=dict(os.environ, TMPDIR=d))     # (its launcher creates a SANY* directory with mktemp -t)
         if p.returncode == 124:
             raise ToolError(f"Apalache timed out on {module} ({name})")
         ok = "The outcome is: NoError" in p.stdout
